@@ -56,7 +56,10 @@ def run(prog: Program, rep, tier: str) -> None:
     rep.explanation = EXPLANATION
     rep.assumptions += ["user callbacks registered with Solver.callbacks are the user's code (exempt)",
                         "problem callbacks are deterministic functions of x, so filling an iterate's cached evaluation from display code is memoisation, not a state change"]
-    x = ExcFlow(prog)
+    # math-domain errors (math.pow / math.log / math.sqrt ...) are modelled as raise sites inside observer-only code: a
+    # display-only computation must not be able to abort the solve through them either (exhibited: math.pow(0, -0.5) for an
+    # empty reduced system under report_rcond, fixed in 9ba1357)
+    x = ExcFlow(prog, partial_math=lambda f: is_observer_func(f))
     obs_funcs = [f for f in prog.iter_functions() if prog.in_scope(f) and is_observer_func(f)]
     rep.pin("observer-only functions", len(obs_funcs), 40)
 
@@ -148,11 +151,30 @@ def run(prog: Program, rep, tier: str) -> None:
     containment(prog, rep, x, obs_funcs, regions)
     # (d) private randomness / clock
     c10.sources(prog, rep)
+    tm = prog.cls("pygradflow.timer.Timer")
+    n_reset = 0
+    for fi in prog.iter_functions():
+        if not prog.in_scope(fi):
+            continue
+        for node in own_nodes(fi.node):
+            if isinstance(node, ast.Call) and isinstance(node.func, ast.Attribute) and node.func.attr == "reset":
+                ts = prog.infer_type(fi, node.func.value)
+                if any(t.module.name == "pygradflow.timer" for t in ts):
+                    n_reset += 1
+                    rep.check(tm not in ts, "algorithm-clock-not-reset", fi.qualname, U(node), "only a display's private SimpleTimer is ever reset, never the solve's time-limit Timer", fi.loc(node))
+    dsp = prog.func("pygradflow.display.Display.__init__")
+    tv = [U(n.value) for n in own_nodes(dsp.node) if isinstance(n, ast.Assign) and any(is_self_attr(t, "timer") for t in n.targets)]
+    rep.check(set(tv) <= {"None", "SimpleTimer()"} and "SimpleTimer()" in tv, "algorithm-clock-not-reset", dsp.qualname, "self.timer = SimpleTimer()", "a Display creates its own private timer", dsp.loc())
+    rep.pin("timer reset sites", n_reset, 1)
+    # the linear solver shared between the step and its condition estimate keeps no state across solves
+    from . import c17
+    c17.stateless_solve(prog, rep)
     # (e) path collection appends fresh copies
     z = prog.func("pygradflow.iterate.Iterate.z")
     r = returns_of(z)
     rep.check(len(r) == 1 and np_call(r[0].value, "concatenate"), "path-appends-copies", z.qualname, short(r[0]) if r else "", "Iterate.z builds a fresh array (the recorded path cannot alias iterate storage)", z.loc())
-    rep.undecided += ["cond_estimate.ConditionEstimator.estimate_rcond: `assert y.dot(yprod) > 0.0`, `assert num_its > 0`, math.pow / math.log domain errors are data dependent (not decided)"]
+    rep.undecided += ["cond_estimate.ConditionEstimator.estimate_rcond: `assert y.dot(yprod) > 0.0`, `assert num_its > 0` are data dependent (not decided); "
+                      "math-domain errors there are contained by StepSolver.estimate_rcond (decided)"]
 
 
 def no_feedback(prog: Program, rep) -> None:
